@@ -299,7 +299,8 @@ pub fn check_c20(h: &Hist) -> POut {
         (Some(e), true) => out.violations.push(viol("C20", "R-zero-accepted", 0, "a zero parameter was accepted by the builder", format!("expected {} for {:?}", e, cfg))),
         (None, false) => out.violations.push(viol("C20", "R-config-rejected", 0, &format!("a valid configuration was rejected: {}", h.build_err.chars().map(|c| if c.is_ascii_digit() { '#' } else { c }).collect::<String>()), format!("{:?}: {}", cfg, h.build_err))),
         (None, true) => {
-            out.nontrivial = true;
+            // non-trivial = the configuration has at least one small / unusual parameter
+            out.nontrivial = cfg.num_counters < 64 || cfg.max_cost < 100 || cfg.buffer_size <= 8 || cfg.buffer_items <= 1 || cfg.cleanup_ms <= 10;
             if cfg.num_counters < 64 {
                 probe(&mut out, "tiny_num_counters", 1);
             }
